@@ -6,6 +6,7 @@ import Proofs.C11_Lemmas
 import Proofs.C04_Chains
 import Proofs.C11_Xml
 import Proofs.C11_XmlNoField
+import Proofs.C11_Ext7
 namespace Mammoth
 
 /-! ### reading the formatting of a run -/
@@ -476,5 +477,60 @@ example :
       | .ok (rr, _) => ((visitAll { styleMap := [⟨.bold, .ignore⟩] } false rr.elements).run {}).toOption.map (·.1)
       | .error _ => none) = some [] := by rfl
 
+/-! ### round 7: first occurrence of a toggle, unmapped properties under arbitrary other mappings, adjacent runs -/
+
+/-- THE FIRST OCCURRENCE DECIDES: for every property list `pre ++ <name as…> :: rest` in which no element of `pre`
+    has the name (`c11e_noChild`; text nodes are skipped), the toggle is read from the `w:val` of THAT element —
+    later duplicates in `rest` (any spelling) are irrelevant; and a list without such an element reads as off -/
+theorem C11_toggle_first_decides (name : Str) (pre : List XmlNode) (as : Attrs) (cs rest : List XmlNode)
+    (h : c11e_noChild name pre = true) :
+    readBoolElem name (pre ++ .elem name as cs :: rest) = readBoolAttr (attr? S!"w:val" as) ∧
+    readBoolElem name pre = false := by
+  simp only [readBoolElem, c11e_findChild_first name pre as cs rest h, c11e_findChild_none name pre h, and_self]
+
+example : c11e_noChild S!"w:b" [.text S!" ", .elem S!"w:i" [] []] = true := by decide
+example : readBoolElem S!"w:b" ([.text S!" ", .elem S!"w:i" [] []] ++
+    .elem S!"w:b" [(S!"w:val", S!"0")] [] :: [.elem S!"w:b" [] []]) = false := by decide
+
+/-- UNDERLINE, ALL CAPS, SMALL CAPS AND HIGHLIGHT ADD NOTHING WITHOUT A MAPPING OF THEIR OWN, whatever ELSE the style
+    map overrides (bold, italic, strikethrough, run styles, …): if no mapping matches underline, all caps, small
+    caps and the run's highlight colour, the run's formatting paths wrap any content exactly as those of the same run
+    with these four properties cleared (`c11e_clear`) -/
+theorem C11_unmapped_add_nothing (cfg : Cfg) (r : RunProps) (ns : List Node)
+    (hu : findStyle cfg.upper cfg.styleMap .underline = none)
+    (hc : findStyle cfg.upper cfg.styleMap .allCaps = none)
+    (hsc : findStyle cfg.upper cfg.styleMap .smallCaps = none)
+    (hh : c11_highlightSpec cfg r.highlight = []) :
+    wrapAll (runPropPaths cfg r) ns = wrapAll (runPropPaths cfg (c11e_clear r)) ns :=
+  c11e_unmapped cfg r hu hc hsc hh ns
+
+private def c11e_exCfg : Cfg := { styleMap := [⟨.bold, .elements [c11_tag S!"b"]⟩] }
+private def c11e_exRun : RunProps :=
+  { bold := true, underline := true, allCaps := true, smallCaps := true, highlight := some S!"yellow" }
+example : findStyle c11e_exCfg.upper c11e_exCfg.styleMap .underline = none ∧
+    findStyle c11e_exCfg.upper c11e_exCfg.styleMap .allCaps = none ∧
+    findStyle c11e_exCfg.upper c11e_exCfg.styleMap .smallCaps = none ∧
+    c11_highlightSpec c11e_exCfg c11e_exRun.highlight = [] := by decide
+example : wrapAll (runPropPaths c11e_exCfg c11e_exRun) [.text S!"x"] = [.elem (c11_tag S!"b") [.text S!"x"]] := by
+  rfl
+
+/-- ADJACENT RUNS ARE WRAPPED ONE BY ONE: for EVERY list of text runs (any formatting, equal or different from run to
+    run) and EVERY style map (including `!` mappings), the converted nodes are the concatenation, in order, of each
+    run's own nodes — its text inside its own paths (`c11e_runNodes`: formatting paths, then the run-style path) —
+    so no run's wrapper contains another run's text; the state only collects the unrecognised-style warnings, in
+    order -/
+theorem C11_adjacent_runs_separate (cfg : Cfg) (hdr : Bool) (rs : List (RunProps × Str)) (st : ConvState) :
+    (visitAll cfg hdr (rs.map fun p => Elem.run p.1 [.text p.2])).run st =
+      .ok (rs.flatMap (c11e_runNodes cfg), rs.foldl (c11e_runWarn cfg) st) :=
+  c11e_visit_textRuns cfg hdr rs st
+
+example : [(({ bold := true } : RunProps), S!"a"), ({ bold := true }, S!"b"), ({ italic := true }, S!"c")].flatMap
+      (c11e_runNodes {}) =
+    [.elem (c11_tag S!"strong") [.text S!"a"], .elem (c11_tag S!"strong") [.text S!"b"],
+     .elem (c11_tag S!"em") [.text S!"c"]] := by rfl
+
+#print axioms C11_toggle_first_decides
+#print axioms C11_unmapped_add_nothing
+#print axioms C11_adjacent_runs_separate
 
 end Mammoth
